@@ -1,2 +1,26 @@
-From Cddl Require Import Sem.Syntax Sem.Validator.
-Theorem C02_placeholder : True. Proof. exact I. Qed.
+(* C02 - CBOR validation verdicts equal RFC 8610 semantics on the core language, independently of the encoding.
+   Same specification and decider as C01 with jm = false (integers and floats are distinct items),
+   over values with byte strings, tags, simple values, arbitrary keys and the full 64-bit range. *)
+From Cddl Require Import Base.Bytes Cbor.Wire Cbor.Wf Sem.Syntax Sem.Validator Sem.Sem Sem.Decides Sem.CborTie.
+Open Scope Z_scope.
+
+Theorem C02_cbor : forall e f t v b,
+  vt f false e t v = Some b ->
+  (b = true <-> MatchT false e t v) /\ (b = false <-> FailT false e t v).
+Proof. exact (vmodel_decides false). Qed.
+
+(* decoding (the C11 model, proven to implement RFC 8949) followed by validation gives the same verdict
+   for every two well-formed encodings of the same item: definite/indefinite lengths, head widths, float widths *)
+Theorem C02_encoding_independent : forall (conv : cval -> value) f e t x e1 e2,
+  wf_bytes e1 -> wf_bytes e2 -> Enc x e1 -> Enc x e2 -> vbytes conv f e t e1 = vbytes conv f e t e2.
+Proof. exact encoding_independent_verdict. Qed.
+
+(* non-vacuity: tagged item, byte-string literal, non-text key, 64-bit bound *)
+Definition ex2_env : env :=
+  [ (0%N, DType (TMap (GSeq (GEnt (Some (TLit (LInt 1))) true (TTag 24%N (TRef 1004%N)))
+                          (GSeq (GOcc 0%N (Some 1%N) (GEnt (Some (TLit (LInt (-1)))) true (TLit (LBytes [1%N; 2%N]))))
+                                (GOcc 0%N None (GEnt (Some (TRef 1001%N)) false (TRef 1001%N))))))) ].
+Definition ex2_doc : value :=
+  VMap [(VInt 7, VInt 18446744073709551615); (VInt 1, VTag 24%N (VBytes [0%N])); (VInt (-1), VBytes [1%N; 2%N])].
+Example C02_example_match : MatchT false ex2_env (TRef 0%N) ex2_doc.
+Proof. exact (proj1 (proj1 (vmodel_decides false ex2_env 60 (TRef 0%N) ex2_doc true eq_refl)) eq_refl). Qed.
